@@ -22,6 +22,7 @@ import CtyModel.Lemmas.d04ConvNoInv
 import CtyModel.Lemmas.d04Call
 import CtyModel.Lemmas.d04RefineNN
 import CtyModel.ConvertD08Env
+import CtyModel.Lemmas.OpsFnsTie
 namespace CtyModel
 namespace C04
 open Value
@@ -406,6 +407,33 @@ example : (Fn.call Stdlib.lengthSpec Stdlib.lengthType Stdlib.lengthImpl
     .ok ⟨.number, .marked ["m1"] (.n (Num.ofInt 1 64))⟩ := by rfl
 example : Fn.Unhandled { params := [{ ty := .dyn }] } [⟨.list .bool, .seq [.marked ["m2"] (.b true)]⟩] "m2" :=
   ⟨0, { ty := .dyn }, _, rfl, rfl, rfl, by decide⟩
+
+/-! ## The same clauses about the REGENERATED operation methods
+
+`OpsFnsTie.genRun` is `Op.run` with the fourteen methods that `extract/translate_ops.go` translates from
+cty/value_ops.go on every check (`Generated/OpsFns.lean`: Add … Modulo, Negate, Absolute, Not, And, Or, the four
+ordering methods, each WITH its marks prologue as written) in place of the hand-written ones. -/
+
+/-- `op_unmark_commutes` for the translated methods: non-interference of the source text's own prologue. -/
+theorem op_unmark_commutes_generated (op : Op) (args : List Value) (h : ArgsWF args) :
+    (OpsFnsTie.genRun op args).map unmarkDeep = OpsFnsTie.genRun op (args.map unmarkDeep) := by
+  rw [OpsFnsTie.genRun_eq op args (fun a ha => OpsFnsTie.single_of_marksWF (h a ha)),
+    OpsFnsTie.genRun_eq op (args.map unmarkDeep) (fun a ha => by
+      obtain ⟨b, _, rfl⟩ := List.mem_map.mp ha
+      exact OpsFnsTie.single_unmarkDeep b)]
+  exact op_unmark_commutes op args h
+
+/-- `top_marks_kept` for the translated methods (operands with a well-formed marker structure). -/
+theorem top_marks_kept_generated (op : Op) (args : List Value) (hw : ArgsWF args) (r : Value)
+    (h : OpsFnsTie.genRun op args = .ok r) (a : Value) (ha : a ∈ args) (m : String) (hm : m ∈ a.marks) : m ∈ r.marks := by
+  rw [OpsFnsTie.genRun_eq op args (fun a ha => OpsFnsTie.single_of_marksWF (hw a ha))] at h
+  exact top_marks_kept op args r h a ha m hm
+
+/-- `no_invention` for the translated methods. -/
+theorem no_invention_generated (op : Op) (args : List Value) (hw : ArgsWF args) (r : Value)
+    (h : OpsFnsTie.genRun op args = .ok r) (m : String) (hm : m ∈ r.marksDeep) : ∃ a ∈ args, m ∈ a.marksDeep := by
+  rw [OpsFnsTie.genRun_eq op args (fun a ha => OpsFnsTie.single_of_marksWF (hw a ha))] at h
+  exact no_invention op args r h m hm
 
 end C04
 end CtyModel
